@@ -6,7 +6,7 @@
   value algebra `A` (comparison operators, ORDER BY order, aggregate folds — C23/C20/C21).
 
   Status: PARTIAL.  `C11_full` is false on the pinned tree (counterexample theorems below, each replayed on the
-  real engine through corpus/query/*.ops).  `C11_partial_statement` (the full statement restricted to inputs
+  real engine through corpus/query/*.ops; two former counterexamples were repaired by `fix:` commits).  `C11_partial_statement` (the full statement restricted to inputs
   that trigger no known finding) is the target; what is proved so far are the operator lemmas `op*`, stated over
   all graphs / tables / expressions.
 -/
@@ -105,14 +105,13 @@ example : Agrees (Exec.run small { g := g1 } q2) (Spec.denote small { g := g1 } 
 
 /-! ### counterexamples: `C11_full` is false of the model (and of the engine: corpus/query/*.ops) -/
 
-/-- DISTINCT is planned above LIMIT: `UNWIND [1,1,2] AS x RETURN DISTINCT x LIMIT 2` yields one row, the
-    reference two. -/
+/-- formerly a counterexample (Distinct planned above Limit), repaired by fix ceade13:
+    `UNWIND [1,1,2] AS x RETURN DISTINCT x LIMIT 2` now agrees with the reference (two rows). -/
 def qDistinctLimit : Query :=
   [.unwind (.listLit [.int 1, .int 1, .int 2]) "x",
    .return_ ⟨true, [⟨.plain (.var "x"), "x"⟩], [], none, some (.int 2)⟩]
 
-theorem counterexample_distinct_after_limit :
-    ¬ Agrees (Exec.run small { g := ⟨[], []⟩ } qDistinctLimit) (Spec.denote small { g := ⟨[], []⟩ } qDistinctLimit) := by
+example : Agrees (Exec.run small { g := ⟨[], []⟩ } qDistinctLimit) (Spec.denote small { g := ⟨[], []⟩ } qDistinctLimit) := by
   decide
 
 /-- two parallel copies of one relationship identity: the engine lets a chain re-use the identity
@@ -163,8 +162,7 @@ theorem counterexample_anon_rel_props :
     ¬ Agrees (Exec.run small { g := gOneRel } qAnonRelProps) (Spec.denote small { g := gOneRel } qAnonRelProps) := by
   decide
 
-/-- a bound variable in the middle of a pattern whose end nodes are free does not constrain the pattern:
-    `MATCH (a) MATCH (b)-->(a)-->(c)` is planned as CartesianProduct(scan a, independent chain). -/
+/-- a bound variable in the middle of a pattern whose end nodes are free: `MATCH (a) MATCH (b)-->(a)-->(c)` -/
 def gChain : Graph :=
   ⟨[⟨0, [], []⟩, ⟨1, [], []⟩, ⟨2, [], []⟩], [⟨⟨0, "T", 1⟩, 1, []⟩, ⟨⟨1, "T", 2⟩, 1, []⟩]⟩
 
@@ -174,14 +172,14 @@ def qUnanchored : Query :=
       [(⟨none, [], .out, []⟩, ⟨some "a", [], []⟩), (⟨none, [], .out, []⟩, ⟨some "c", [], []⟩)]⟩],
    .return_ ⟨false, [⟨.plain (.var "a"), "a"⟩, ⟨.plain (.var "b"), "b"⟩], [], none, none⟩]
 
-theorem counterexample_unanchored_bound_variable :
-    ¬ Agrees (Exec.run small { g := gChain } qUnanchored) (Spec.denote small { g := gChain } qUnanchored) := by
+/-- formerly a counterexample (independent CartesianProduct component), repaired by fix 0536246 -/
+example : Agrees (Exec.run small { g := gChain } qUnanchored) (Spec.denote small { g := gChain } qUnanchored) := by
   decide
 
-/-- hence the full-strength statement fails (witness: the DISTINCT/LIMIT query over the empty graph) -/
+/-- hence the full-strength statement fails (witness: OPTIONAL MATCH after two equal rows) -/
 theorem C11_full_false : ¬ C11_full := by
   intro h
-  exact counterexample_distinct_after_limit
-    (h small { g := ⟨[], []⟩ } qDistinctLimit (by decide) (by decide) (by decide))
+  exact counterexample_optional_duplicate_outer
+    (h small { g := gOneNode } qOptionalDup (by decide) (by decide) (by decide))
 
 end Nervus.Props.C11
